@@ -8,6 +8,7 @@ import (
 	"encoding/json"
 	"fmt"
 	"os"
+	"runtime"
 	"sort"
 )
 
@@ -331,3 +332,16 @@ func CleanupTempDirs() {
 	}
 	tempDirs = nil
 }
+
+// Yield is a scheduling point (stubs call it where an I/O operation may complete later).
+func Yield() { runtime.Gosched() }
+
+// Preemptions bounds the number of preemptive context switches per schedule (engine only).
+func Preemptions(n int) {}
+
+// WatchField makes every access to a struct field of this name a scheduling point
+// (engine only).
+func WatchField(name string) {}
+
+// Schedule returns the sequence of thread ids chosen at scheduling points (engine only).
+func Schedule() string { return "" }
